@@ -94,6 +94,21 @@ def _common(obj, kind, mode, desc, rec):
     if any(list(q) != sorted(q) for q in desc['qD']):
         rec.label('unsorted_bond_charges')
     rec.nontrivial = bool(n0 > 1e-9 * tmag and L >= 2 and max(D_old) >= 2)
+    # a user-style edit of a site tensor after the first call, then the same call again: the object must be treated like
+    # any other (no stale "already canonical" knowledge); judged against the dense form right before the second call
+    if n0 > 1e-9 * tmag and np.issubdtype(obj.A[0].dtype, np.inexact):
+        k = desc['seed'] % L
+        if desc['seed'] % 2:
+            obj.A[k] = 2.5 * obj.A[k]
+        else:
+            obj.A[k] = np.array(obj.A[k], dtype=complex); obj.A[k] *= (0.5 - 1.5j)
+        ve = np.asarray(to_dense([np.asarray(a, dtype=complex) for a in obj.A]))
+        ne = float(np.linalg.norm(ve))
+        nrm_e = float(np.real(obj.orthonormalize(mode=mode)))
+        require(abs(nrm_e - ne) <= TOL * max(ne, 1e-300), 'orthonormalize after a tensor edit returns a wrong factor (stale state?)', nrm=nrm_e, norm=ne)
+        vf = np.asarray(to_dense([np.asarray(a, dtype=complex) for a in obj.A]))
+        require(np.linalg.norm(nrm_e * vf - ve) <= TOL * max(ne, 1e-300), 'orthonormalize after a tensor edit changes the represented object')
+        v1 = vf
     # second application is idempotent up to rounding: factor 1, same dense form
     if n0 > 1e-9 * tmag:
         nrm2 = float(np.real(obj.orthonormalize(mode=mode)))
